@@ -3,6 +3,10 @@
 // `std` feature (Kani ICE), so these harnesses build the no_std + spin-lock feature set.
 use super::*;
 #[allow(unused_imports)]
+use crate::{error, fn_mocker::{FnMocker, PatternMatchMode}, FallbackMode};
+#[allow(unused_imports)]
+use crate::alloc::BTreeMap;
+#[allow(unused_imports)]
 use crate::alloc::{vec, String, Vec};
 
 pub(crate) fn empty_state(mode: FallbackMode) -> SharedState {
